@@ -25,6 +25,44 @@ theorem numSplits_pos (L res : ℝ) (hL : 0 < L) (hres : 0 < res) : numSplits L 
   have : 0 < L / res := by positivity
   exact (Nat.ceil_pos.mpr this).ne'
 
+/-- `torch.max(self.length)` of a vectorised element (entries in a list) -/
+noncomputable def vecMax : List ℝ → ℝ
+  | [] => 0
+  | l :: ls => ls.foldl max l
+
+theorem le_foldl_max (ls : List ℝ) : ∀ (a x : ℝ), (x = a ∨ x ∈ ls) → x ≤ ls.foldl max a := by
+  induction ls with
+  | nil => intro a x h; rcases h with rfl | h; exact le_refl _; simp at h
+  | cons b t ih =>
+    intro a x h
+    simp only [List.foldl_cons]
+    rcases h with rfl | h
+    · exact le_trans (le_max_left _ _) (ih (max x b) (max x b) (Or.inl rfl))
+    · rcases List.mem_cons.mp h with rfl | h
+      · exact le_trans (le_max_right _ _) (ih (max a x) (max a x) (Or.inl rfl))
+      · exact ih _ x (Or.inr h)
+
+theorem le_vecMax (ls : List ℝ) (x : ℝ) (h : x ∈ ls) : x ≤ vecMax ls := by
+  cases ls with
+  | nil => simp at h
+  | cons a t =>
+    unfold vecMax
+    rcases List.mem_cons.mp h with rfl | h
+    · exact le_foldl_max t x x (Or.inl rfl)
+    · exact le_foldl_max t a x (Or.inr h)
+
+/-- **vectorised lengths**: the number of pieces is taken from the longest entry; then for *every* entry the pieces add
+up to the entry's length and none is longer than the resolution -/
+theorem split_vector (ls : List ℝ) (res : ℝ) (hres : 0 < res) (h : numSplits (vecMax ls) res ≠ 0) :
+    ∀ l ∈ ls, ((numSplits (vecMax ls) res : ℕ) : ℝ) * (l / numSplits (vecMax ls) res) = l ∧
+      l / numSplits (vecMax ls) res ≤ res := by
+  intro l hl
+  refine ⟨split_sum l _ h, ?_⟩
+  have hn : (0:ℝ) < numSplits (vecMax ls) res := by exact_mod_cast Nat.pos_of_ne_zero h
+  have h1 : l / numSplits (vecMax ls) res ≤ vecMax ls / numSplits (vecMax ls) res :=
+    div_le_div_of_nonneg_right (le_vecMax ls l hl) hn.le
+  exact le_trans h1 (split_le_res _ res hres h)
+
 /-- n equal pieces of a one-parameter group compose to the whole -/
 theorem pieces_compose {G : Type*} [Monoid G] (f : ℝ → G) (h0 : f 0 = 1)
     (hadd : ∀ a b, f (a + b) = f a * f b) (a : ℝ) : ∀ n : ℕ, f a ^ n = f (n * a)
